@@ -514,6 +514,7 @@ impl Meta {
     //@trusted encode_page: Meta::encode_page returns some page image (layout / round trip: Kani harness c18_meta_roundtrip)
     #[verifier::external_body]
     pub fn encode_page(self) -> (r: [u8; PAGE_SIZE])
+        ensures r@ == meta_image(self)
     { unimplemented!() }
 }
 //@extract nervusdb-storage/src/pager.rs write_page_raw ret r
